@@ -29,6 +29,7 @@ THEOREMS = [
     "C04_collect_full_reachable", "C04_reachable_cycle_no_result",
     "C04_exec_terminates_with_C07_coercion", "C04_exec_eq_spec_full_with_C07_coercion",
     "C04_null_error_bijection_with_C07_coercion", "C04_argument_failure_with_C07_coercion",
+    "C04_exec_complete", "C04_exec_characterised", "C04_serial_is_parallel",
 ]
 AXIOMS_OK = []
 RUN_MODULE = "Run.C04run Exec.ExecModel"
